@@ -12,13 +12,16 @@ Definition run_diff (cases : list ((tree * tree) * bool)) : list N :=
 Definition id_san (s : str) : str := s.
 Definition same_paths (a b : list path) : bool :=
   forallb (fun p => mem_path p b) a && forallb (fun p => mem_path p a) b.
-Definition modes_model (c : gen_input * registry) : bool * list path :=
-  let ex := tree_force id_san (fst c) (snd c) in
-  let d := rerun_differing id_san (fst c) ex in
-  (match d with [] => true | _ => false end, d).
-Definition run_modes (cases : list ((gen_input * registry) * (bool * list path))) : list N :=
+(* input: (gen_input, registry found before the rerun, another client of the same core was generated in between) *)
+Definition modes_model (c : gen_input * registry * bool) : bool * list path :=
+  match c with (g, found, touched) =>
+    let ex := existing_after id_san g found touched in
+    let d := rerun_differing id_san g ex in
+    (match d with [] => true | _ => false end, d)
+  end.
+Definition run_modes (cases : list ((gen_input * registry * bool) * (bool * list path))) : list N :=
   report (fun a b => Bool.eqb (fst a) (fst b) && same_paths (snd a) (snd b)) modes_model
-         (fun _ => []) cases.
+         (fun c => match c with (g, _, touched) => [guard_F09h g touched] end) cases.
 
 (* ---- site1: the path template lists the variables in [o1]; the set is iterated in order o1, then in order o2 *)
 Definition site1_in := (list (str * str) * list param * list str * list str)%type.
